@@ -10,11 +10,11 @@
 EXTENDS EoChunks, TLC
 RowBad(k, row) ==
   UNION {
-    (IF \E j \in 1..Len(row.fieldbytes[c]) : Has(row.fieldbytes[c][j], 255) THEN {<<k, c, 1>>} ELSE {})
-    \cup (IF PrefixCorrect(row.chunks[c], row.plans[c], row.results[c]) THEN {} ELSE {<<k, c, 2>>})
-    \cup (IF SurplusZero(row.chunks[c], row.plans[c], row.results[c]) THEN {} ELSE {<<k, c, 3>>})
+    (IF c <= Len(row.chunks) /\ \E j \in 1..Len(row.fieldbytes[c]) : Has(row.fieldbytes[c][j], 255) THEN {<<k, c, 1>>} ELSE {})
+    \cup (IF PrefixCorrect(ChunkAt(row.chunks, c), row.plans[c], row.results[c]) THEN {} ELSE {<<k, c, 2>>})
+    \cup (IF SurplusZero(ChunkAt(row.chunks, c), row.plans[c], row.results[c]) THEN {} ELSE {<<k, c, 3>>})
     \cup (IF row.results[c] = row.alone[c] THEN {} ELSE {<<k, c, 4>>})
-    : c \in 1..Len(row.chunks)}
+    : c \in 1..Len(row.plans)}      \* plans may outnumber chunks by one (a chunk that was never written)
 Bad(blk) == UNION {RowBad(k, blk.rows[k]) : k \in 1..Len(blk.rows)}
 VARIABLES g, k
 D == INSTANCE BulkDriver WITH BadRows <- Bad
